@@ -7,7 +7,7 @@ from check import standard_run, generic_replay, selftest_numeric
 
 MODULE = "TraceAutomata"
 FAMS = [("Sat3", {}), ("Sat3", {}), ("Bool", {}), ("RatU", {"eps_acyclic": True}), ("Rat", {"eps_acyclic": True}),
-        ("Sat2", {}), ("MaxTimes", {"acyclic": True})]
+        ("Sat2", {}), ("MaxTimes", {"acyclic": True}), ("BM2", {})]
 
 
 def generate(rng, tier, shard, nshards):
@@ -19,11 +19,16 @@ def generate(rng, tier, shard, nshards):
         feat = aops.afeat(M)
         style = rng.choice(aops.STATE_STYLES)
         base = {"sr": srn, "M": M, "style": style}
+        acyc_total = srn in ("Sat3", "Sat2", "Bool", "BM2") or kw.get("acyclic")
+        if i % 2 == 1:       # a history of earlier queries on the same automaton object
+            base["pre"] = [rng.choice([x for x in aops.WFSA_PRE if acyc_total or x not in ("total_weight", "forward", "backward")])
+                           for _ in range(rng.randint(1, 3))]
+            feat = feat + "+history"
         for s in fam.strings(("a", "b"), L):
             yield aops.event("wcall", dict(base, s=list(s)), site="WFSA.__call__", feat=feat)
-        yield aops.event("wop", {"sr": srn, "A": M, "fn": "epsremove", "sigma": ["a", "b"], "L": L, "style": style},
+        yield aops.event("wop", {"sr": srn, "A": M, "fn": "epsremove", "sigma": ["a", "b"], "L": L, "style": style, "pre": base.get("pre")},
                          site="epsremove", feat=feat)
-        if srn in ("Sat3", "Sat2", "Bool") or kw.get("acyclic"):
+        if acyc_total:
             yield aops.event("wtotal", base, site="total_weight", feat=feat)
         elif srn in ("RatU", "Rat"):
             M2 = aops.rand_wfsa(rng, srn, nS=3, narcs=5, acyclic=True)
